@@ -754,5 +754,14 @@ impl<'a, 'w> VariantSerializer<'a, 'w> {
 //@@ end
 }
 
+//@@ fn file=serde_amqp/src/ser.rs name=to_vec id=to_vec
+//@@ qmark
+//@@ generics
+//@@ nowhere
+//@@ param value : &ValS
+//@@ spec
+    ensures r is Ok ==> r->Ok_0@ == enc(*value, plain_mode()),       // [C03.ser.entry-starts-unmarked] [C05.ser.entry-starts-unmarked] [C20.ser.entry-starts-unmarked] to_vec returns exactly the octets the value writes into a fresh serializer (no marker pending, no struct encoding, outside any array): nothing before them, nothing after
+//@@ end
+
 } // verus!
 fn main() {}
